@@ -206,8 +206,8 @@ PROPS['C10'] = dict(
     assumptions=[EXACT, SAN],
 )
 PROPS['C14'] = dict(
-    units=[dict(target=HIST_T, quick=dict(args=['--focus', 'C14'], scale=1.0), thorough=dict(args=['--focus', 'C14', '--max-size', '200'], scale=4.0, shards=16)),
-           fuzz_unit(4, 60000, 1000000)],
+    units=[dict(target=HIST_T, quick=dict(args=['--focus', 'C14'], scale=0.6, shards=4), thorough=dict(args=['--focus', 'C14', '--max-size', '200'], scale=4.0, shards=16)),
+           fuzz_unit(4, 12000, 600000)],
     rule=HIST_RULE + 'Oracle (C14): before/after snapshots (grid points incl. getData(), window, coefficient arrays, three evaluations) of EVERY object that is not the declared target of the step are identical; a copy / assigned object equals its source; '
          'moved-to equals the source\'s former state; a op= b equals a op b; an in-place call that throws leaves its target unchanged. Non-trivial: an object with a live copy/derivative is mutated in place, or an in-place call throws. Distinct = distinct history text.',
     technique='model-based stateful testing: generated API call histories with before/after snapshots of every non-target object',
